@@ -44,6 +44,10 @@ namespace rkcommon {
           }
         };
 
+        // the task set size is unsigned: a count <= 0 must not wrap around
+        if (nTasks <= 0)
+          return;
+
         LocalTask task(nTasks, std::forward<TASK_T>(fcn));
         scheduleTaskInternal(&task);
         waitInternal(&task);
